@@ -169,6 +169,16 @@ class WebSession(object):
 
                 request = self._original_request.copy()
                 request.url = url
+
+                # The copy was prepared for (and authenticated to) the
+                # previous host. Host must be derived from the new URL, and
+                # credentials or cookies must not follow to another host.
+                request.fields.pop('Host', None)
+
+                if request.url_info.hostname_with_port != \
+                        self._original_request.url_info.hostname_with_port:
+                    request.fields.pop('Authorization', None)
+                    request.fields.pop('Cookie', None)
             else:
                 request = self._request_factory(url)
 
